@@ -1480,6 +1480,8 @@ func runStateful(h *harness, res *core.Result) error {
 			return err
 		}
 		auds := []int{4, 0, 12}
+		vtime.SetVirtual(false)
+		defer vtime.SetVirtual(true)
 		var idx int64
 		_, done2 := seqx.Product([]int{len(hosts), len(h.signers), len(auds), 2}, func(ix []int) bool {
 			idx++
@@ -1525,6 +1527,10 @@ func runJWT(h *harness, res *core.Result, a jwtAlpha) error {
 	if err := h.withKeys(); err != nil {
 		return err
 	}
+	// signed tokens are judged by the JWT library against the real clock:
+	// galene's own code must see the same clock while they are evaluated
+	vtime.SetVirtual(false)
+	defer vtime.SetVirtual(true)
 	t := newTally(a.name)
 	var ferr error
 	dims := []int{len(a.hosts), len(a.S), len(a.T), len(a.A), len(a.I), len(a.U), len(a.P), len(a.KS), len(a.groups)}
